@@ -266,14 +266,15 @@ fn coord_of(r: &mut Rng, c: &Cfg) -> g::Coord<f64> {
     g::Coord { x: gen::coord(r, c, false), y: gen::coord(r, c, false) }
 }
 
-fn gen_geo_polygon(r: &mut Rng, star: bool) -> g::Polygon<f64> {
+fn gen_geo_polygon(r: &mut Rng, star: bool, tiny: bool) -> g::Polygon<f64> {
     let c = Cfg { pool: Pool::Exact, ..Cfg::plain(1, 6) };
     let mut ring = |r: &mut Rng, cw: bool| -> g::LineString<f64> {
         if star {
             g::LineString(star_ring(r, cw).into_iter().map(|p| g::Coord { x: p.0, y: p.1 }).collect())
         } else {
-            // >= 3 coordinates, arbitrary orientation, may be open (geo-types closes it)
-            g::LineString((0..r.usize_in(3, 7)).map(|_| coord_of(r, &c)).collect())
+            // >= 3 coordinates (every tenth case: from ONE coordinate on, the smallest non-empty
+            // component), arbitrary orientation, may be open (geo-types closes it)
+            g::LineString((0..r.usize_in(if tiny { 1 } else { 3 }, if tiny { 3 } else { 7 })).map(|_| coord_of(r, &c)).collect())
         }
     };
     let ext_cw = r.chance(0.5);
@@ -300,8 +301,8 @@ fn geo_to_shape(case: &str, variant: usize, i: usize, ctx: &Ctx, rep: &mut Repor
         1 => g::Geometry::Line(g::Line::new(coord_of(&mut r, &c), coord_of(&mut r, &c))),
         2 => g::Geometry::LineString(g::LineString((0..r.usize_in(2, ml)).map(|_| coord_of(&mut r, &c)).collect())),
         3 => g::Geometry::MultiLineString(g::MultiLineString((0..r.usize_in(1, 4)).map(|_| g::LineString((0..r.usize_in(2, ml)).map(|_| coord_of(&mut r, &c)).collect())).collect())),
-        4 => g::Geometry::Polygon(gen_geo_polygon(&mut r, i % 2 == 0)),
-        5 => g::Geometry::MultiPolygon(g::MultiPolygon((0..r.usize_in(1, 3)).map(|_| gen_geo_polygon(&mut r, i % 2 == 0)).collect())),
+        4 => g::Geometry::Polygon(gen_geo_polygon(&mut r, i % 2 == 0, i % 10 == 3)),
+        5 => g::Geometry::MultiPolygon(g::MultiPolygon((0..r.usize_in(1, 3)).map(|_| gen_geo_polygon(&mut r, i % 2 == 0, i % 10 == 3)).collect())),
         _ => g::Geometry::MultiPoint(g::MultiPoint((0..r.usize_in(1, ml)).map(|_| g::Point(coord_of(&mut r, &c))).collect())),
     };
     // the model: the corresponding multi-geometry as (groups of) coordinate lists
